@@ -17,6 +17,47 @@ def lib_srcs():
 KN = {0: '-', 1: 'max', 2: 'min', 3: 'level', 4: 'classes'}
 
 
+def c16_main(tier, only=None):
+    shapes = []
+    kinds = list(range(1, 13))
+    seqs = [(k,) for k in kinds] + [(a, b) for a in (1, 2, 4, 5, 9, 11) for b in (1, 3, 5, 6, 12)] + [(1, 2, 3), (5, 9, 4), (11, 1, 7), (2, 2, 2), (8, 10, 6)]
+    if tier != 'quick':
+        seqs += [(a, b) for a in kinds for b in kinds] + [(1, 2, 3, 4), (5, 6, 7, 8), (9, 10, 11, 12), (4, 4, 1, 1)]
+    for sq in sorted(set(seqs)):
+        code = sum(k << (4 * i) for i, k in enumerate(sq))
+        for sep in (0, 1):
+            shapes.append(('hx_creator', [code, sep], 'creator/%s/sep%d' % ('-'.join(map(str, sq)), sep)))
+            if not any(k in (11, 12) for k in sq):
+                if tier == 'quick' and (len(sq) > 2 or (len(sq) == 2 and sq not in ((1, 5), (2, 3), (4, 6), (9, 1), (5, 3), (2, 1)))):
+                    continue
+                shapes.append(('hx_format', [code, sep], 'format/%s/sep%d' % ('-'.join(map(str, sq)), sep)))
+    ops = (1, 2, 3, 4, 5, 6, 7)
+    hists = [h for n in (1, 2, 3) for h in itertools.product(ops, repeat=n)]
+    if tier == 'quick':
+        rng = random.Random(SEED); hists = [h for h in hists if len(h) <= 2] + rng.sample([h for h in hists if len(h) == 3], 60)
+    else:
+        rng = random.Random(SEED); hists += rng.sample(list(itertools.product(ops, repeat=4)), 300)
+    for h in hists:
+        if h.count(5) > h.count(4):
+            continue
+        shapes.append(('hx_attributes', [sum(k << (3 * i) for i, k in enumerate(h)), 0], 'attributes/' + ''.join(map(str, h))))
+    if only:
+        shapes = [s for s in shapes if re.search(only, s[2])]
+    u = E2Unit('log_C16', os.path.join(HERE, 'w_fmt.cpp'), lib_srcs=lib_srcs(), shapes=shapes, timeout=600 if tier == 'quick' else 1800, conc_cap=300,
+               bounds=dict(definition='builder sequences of 1-3 (4 thorough) fields over 12 field kinds, width 0..6 and alignment symbolic, automatic separator on/off',
+                           message='level/class symbolic over the enums, line and error number 0..20 symbolic, text 2 symbolic printable bytes (each symbolic where the definition shows it)', attributes='histories of <= 3 (4 thorough) add/remove/scope/message operations'))
+    rule = ('one obligation = (builder sequence or attribute history); widths, alignment flags and message data symbolic; z3 decides equality with the reference definition / reference rendering on every path')
+    assumptions = ['IR of creator.cpp, format.cpp, log_msg.cpp, log_attributes*.cpp, logging.cpp + libstdc++ headers', 'ostream padding (setw/left/fill) is produced by the sink model of irsym_cxx following [ostream.formatted]: the real padding code is in libstdc++.so',
+                   'date/time fields: only the definition (kind, format string, width) is checked; strftime/localtime output is outside the technique', 'clock / pid fixed']
+
+    def classify(v):
+        return v['msg'] if v['kind'] == 'assert' else v['kind'] + ': ' + re.sub(r'0x[0-9a-f]+', 'ADDR', re.sub(r'\d+', 'N', v['msg']))[:110]
+
+    def keyfn(u_, r, v, cls):
+        return 'C16:%s|%s' % (r['label'].split('/')[0], cls)
+    return run_e2('C16', tier, [u], rule, assumptions, classify=classify, keyfn=keyfn)
+
+
 def main(tier, only=None):
     shapes = []
     seqs = [s for n in (1, 2, 3) for s in itertools.product((1, 2, 3, 4), repeat=n)]
@@ -56,5 +97,5 @@ def main(tier, only=None):
 
 if __name__ == '__main__':
     import argparse
-    ap = argparse.ArgumentParser(); ap.add_argument('--tier', default=os.environ.get('VERIF_TIER', 'quick')); ap.add_argument('--only')
-    a = ap.parse_args(); sys.exit(main(a.tier, a.only))
+    ap = argparse.ArgumentParser(); ap.add_argument('prop', nargs='?', default='C14'); ap.add_argument('--tier', default=os.environ.get('VERIF_TIER', 'quick')); ap.add_argument('--only')
+    a = ap.parse_args(); sys.exit((c16_main if a.prop == 'C16' else main)(a.tier, a.only))
